@@ -731,9 +731,117 @@ def gen_skeletons():
     return '\n'.join(out) + '\n'
 
 
+# ----------------------------------------------------------------------------- report tables (C10, C11)
+LP = 'line_profiler/line_profiler.py'
+
+
+def gen_report_tables():
+    tree = ast.parse(src_of(LP))
+    sf = find_func(tree, 'show_func')
+    st = find_func(tree, 'show_text')
+    sizes, col_order, header = {}, [], []
+    for node in ast.walk(sf):
+        if isinstance(node, ast.Assign) and len(node.targets) == 1 and isinstance(node.targets[0], ast.Name):
+            nm = node.targets[0].id
+            try:
+                if nm == 'default_column_sizes':
+                    sizes = ast.literal_eval(node.value)
+                elif nm == 'col_order':
+                    col_order = ast.literal_eval(node.value)
+                elif nm == 'header' and isinstance(node.value, ast.Tuple):
+                    header = list(ast.literal_eval(node.value))
+            except Exception:
+                pass
+    def fmts(fn):
+        out = []
+        for node in ast.walk(fn):
+            if isinstance(node, ast.BinOp) and isinstance(node.op, ast.Mod) and isinstance(node.left, ast.Constant) and isinstance(node.left.value, str):
+                out.append((node.lineno, node.col_offset, node.left.value))
+        return [f for _l, _c, f in sorted(out)]
+    # the strip conditions of show_text / show_func as source text
+    strips = []
+    for fn in (sf, st):
+        for node in ast.walk(fn):
+            if isinstance(node, ast.If) and 'stripzeros' in ast.unparse(node.test):
+                strips.append((fn.name, ' '.join(ast.unparse(node.test).split())))
+    sort_key = ''
+    for node in ast.walk(st):
+        if isinstance(node, ast.Call) and ast.unparse(node.func) == 'sorted' and node.keywords:
+            sort_key = ' '.join(ast.unparse(node.keywords[0].value).split())
+    rows_src = [' '.join(ast.unparse(n).split()) for n in ast.walk(sf)
+                if isinstance(n, ast.Assign) and isinstance(n.targets[0], ast.Name) and n.targets[0].id == 'linenos']
+    out = ['/-! Tables copied from line_profiler/line_profiler.py (show_func / show_text) by tools/extract.py — regenerated on every run. -/',
+           'namespace LPVerif.Generated', '']
+    out.append('def reportColumnSizes : List (String × Nat) := [%s]' % ', '.join('(%s, %d)' % (lean_str(k), v) for k, v in sizes.items()))
+    out.append('def reportColOrder : List String := [%s]' % ', '.join(lean_str(x) for x in col_order))
+    out.append('def reportHeader : List String := [%s]' % ', '.join(lean_str(x) for x in header))
+    out.append('/-- `%` format strings of show_func, in source order -/')
+    out.append('def showFuncFormats : List String := [%s]' % ', '.join(lean_str(x) for x in fmts(sf)))
+    out.append('/-- `%` format strings of show_text, in source order -/')
+    out.append('def showTextFormats : List String := [%s]' % ', '.join(lean_str(x) for x in fmts(st)))
+    out.append('/-- conditions under which a function is left out with stripzeros: (function, condition) -/')
+    out.append('def stripConditions : List (String × String) := [%s]' % ', '.join('(%s, %s)' % (lean_str(a), lean_str(b)) for a, b in strips))
+    out.append('def sortKey : String := %s' % lean_str(sort_key))
+    out.append('/-- how the rows of a function are numbered -/')
+    out.append('def rowNumbering : List String := [%s]' % ', '.join(lean_str(x) for x in rows_src))
+    out.append('')
+    out.append('end LPVerif.Generated')
+    return '\n'.join(out) + '\n'
+
+
+# ----------------------------------------------------------------------------- output channels (C11)
+def call_kwargs(fn, callee):
+    """keyword arguments (as source text) of every call of `callee` inside fn, in source order"""
+    out = []
+    for node in ast.walk(fn):
+        if isinstance(node, ast.Call) and ast.unparse(node.func) == callee:
+            out.append((node.lineno, [(k.arg or '**', ' '.join(ast.unparse(k.value).split())) for k in node.keywords]
+                        + [('#%d' % i, ' '.join(ast.unparse(a).split())) for i, a in enumerate(node.args)]))
+    return [kw for _l, kw in sorted(out)]
+
+
+def gen_channel_tables():
+    out = ['/-! How each output channel calls the one renderer (copied from the tree by tools/extract.py — regenerated on every run). -/',
+           'namespace LPVerif.Generated', '']
+    kp = ast.parse(src_of('kernprof.py'))
+    body_fn = find_func(kp, '_main') or find_func(kp, 'main')
+    lpt = ast.parse(src_of(LP))
+    ex = ast.parse(src_of(EXPL))
+
+    def emit(name, doc, calls):
+        out.append('/-- %s -/' % doc)
+        out.append('def %s : List (List (String × String)) := [%s]' % (name, ', '.join(
+            '[' + ', '.join('(%s, %s)' % (lean_str(a), lean_str(b)) for a, b in kw) + ']' for kw in calls)))
+    emit('kernprofViewCalls', 'kernprof --view: the `prof.print_stats(...)` calls', call_kwargs(body_fn, 'prof.print_stats'))
+    emit('viewerShowTextCalls', '`python -m line_profiler`: the `show_text(...)` call of main()', call_kwargs(find_func(lpt, 'main'), 'show_text'))
+    emit('printStatsShowTextCalls', '`LineProfiler.print_stats`: its `show_text(...)` call', call_kwargs(find_func(lpt, 'print_stats', 'LineProfiler'), 'show_text'))
+    emit('explicitPrintStatsCalls', '`GlobalProfiler.show`: the `self._profile.print_stats(...)` calls', call_kwargs(find_func(ex, 'show', 'GlobalProfiler'), 'self._profile.print_stats'))
+    emit('dumpCalls', '`LineProfiler.dump_stats`: pickle.dump call', call_kwargs(find_func(lpt, 'dump_stats', 'LineProfiler'), 'pickle.dump'))
+    emit('loadCalls', '`load_stats`: pickle.load call', call_kwargs(find_func(lpt, 'load_stats'), 'pickle.load'))
+    # explicit overrides: assignments text_kwargs[...] = ...
+    sh = find_func(ex, 'show', 'GlobalProfiler')
+    ov = []
+    for node in ast.walk(sh):
+        if isinstance(node, ast.Assign) and isinstance(node.targets[0], ast.Subscript) and ast.unparse(node.targets[0].value) == 'text_kwargs':
+            ov.append((ast.literal_eval(node.targets[0].slice), ast.unparse(node.value)))
+    def sig_defaults(fn):
+        a = fn.args
+        names = [x.arg for x in a.args]
+        defs = [None] * (len(names) - len(a.defaults)) + [ast.unparse(d) for d in a.defaults]
+        return [(n, d) for n, d in zip(names, defs) if d is not None]
+    for nm, fn in (('printStatsDefaults', find_func(lpt, 'print_stats', 'LineProfiler')), ('showTextDefaults', find_func(lpt, 'show_text'))):
+        out.append('/-- keyword defaults of the signature -/')
+        out.append('def %s : List (String × String) := [%s]' % (nm, ', '.join('(%s, %s)' % (lean_str(a), lean_str(b)) for a, b in sig_defaults(fn))))
+    out.append('/-- `GlobalProfiler.show`: overrides applied to the text-file rendering -/')
+    out.append('def explicitTextOverrides : List (String × String) := [%s]' % ', '.join('(%s, %s)' % (lean_str(a), lean_str(b)) for a, b in ov))
+    out.append('')
+    out.append('end LPVerif.Generated')
+    return '\n'.join(out) + '\n'
+
+
 GENERATORS = [('PreParse.lean', gen_pre_parse), ('RelImport.lean', gen_get_module),
               ('KernprofOptions.lean', gen_kernprof_options), ('ExplicitTables.lean', gen_explicit_tables),
-              ('Explicit.lean', gen_explicit_methods), ('WrapTables.lean', gen_wrap_tables), ('Skeletons.lean', gen_skeletons)]
+              ('Explicit.lean', gen_explicit_methods), ('WrapTables.lean', gen_wrap_tables), ('Skeletons.lean', gen_skeletons), ('ReportTables.lean', gen_report_tables), ('ChannelTables.lean', gen_channel_tables)]
 
 
 def regenerate(log=None):
